@@ -290,6 +290,14 @@ class Funcs:
                 return LiarShort(ch), self.meta(node.aux), None
             if m == 'entries_noniter':
                 return list(ch), self.meta(node.aux), 7
+            if m == 'entries_empty_list':
+                return list(ch) + [Leaf(-4)], self.meta(node.aux), []
+            if m == 'entries_nobool':
+                # WELL-formed: right length, iterable -- but its truth value cannot be taken (array-likes do this)
+                return list(ch), self.meta(node.aux), NoBool('n%d' % i for i in range(n))
+            if m == 'entries_empty_ok':
+                # WELL-formed: no children, entries an empty (falsy, but not None) tuple
+                return [], self.meta(node.aux), ()
             if m == 'not_tuple':
                 return None
             if m == 'list3':
@@ -347,6 +355,15 @@ def rid_of_metadata(metadata):
     if isinstance(metadata, Meta):
         return metadata.v[0]
     return metadata[0]
+
+
+class NoBool(tuple):
+    """A sequence whose truth value cannot be taken (as for numpy arrays): `x or default` / `if x:` raise."""
+
+    __slots__ = ()
+
+    def __bool__(self):
+        raise ValueError('the truth value of this sequence is ambiguous')
 
 
 class MetaHook(type):
